@@ -20,6 +20,7 @@ NSH = 64
 
 def describe(tier):
     b = BOUNDS[tier]
+    assert b['rotations'] >= max(len(D.SELECTORS), len(D.DECLS)), 'every entry of the text menus must lead a rotation'
     return dict(
         rule='E2xE4: all forests with <= %d nodes over {rule, declaration, comment}, rule nesting <= %d, texts from %d selectors %s and %d '
              'declarations %s in %d rotations, plus parenthesised-delimiter declarations %s in a separate pass; layouts %s%s; plus all ordered pairs of comment-free rule trees with <= %d nodes each as two top-level rules (compact layout); every '
